@@ -62,10 +62,10 @@ impl MainState {
                 modes_upd(*old(state), *final(state), my_nick(*old(conn_state)))
                 && final(state).users@[my_nick(*old(conn_state))].modes == (UserModes { oper: true, ..old(state).users@[my_nick(*old(conn_state))].modes }),
             !oper_ok(*self, sk(nick), password@, old(conn_state).user_state.source@) ==> vs_same(*final(state), *old(state)), // @prop C11
-            sym(*final(state)), // @prop C04
+            sym(*final(state)), // @prop C04,C05
             chans_wf(*final(state)), // @prop C04,C08
             no_empty_chan(*final(state)), // @prop C16
-            wallops_wf(*final(state)), // @prop C11,C06
+            wallops_wf(*final(state)), // @prop C11,C06,C05
             counters_wf(*final(state)), // @prop C19
             senders_distinct(*final(state)), // @prop C02,C01
             conn_ok(*final(conn_state), *final(state)), // @prop C11
@@ -105,10 +105,10 @@ impl MainState {
             // MODE never confers operator status (it may only drop it)
             final(state).users@[sk(target)].modes.oper ==> old(state).users@[sk(target)].modes.oper, // @prop C11
             final(state).users@[sk(target)].modes.local_oper == old(state).users@[sk(target)].modes.local_oper, // @prop C11
-            sym(*final(state)), // @prop C04
+            sym(*final(state)), // @prop C04,C05
             chans_wf(*final(state)), // @prop C04,C08
             no_empty_chan(*final(state)), // @prop C16
-            wallops_wf(*final(state)), // @prop C11,C06
+            wallops_wf(*final(state)), // @prop C11,C06,C05
             counters_wf(*final(state)), // @prop C19
             senders_distinct(*final(state)), // @prop C02,C01
             conn_ok(*final(conn_state), *final(state)), // @prop C11
@@ -225,10 +225,10 @@ impl MainState {
                     Reply::ErrNoPrivileges481 { client: str_of(client_name_spec(old(conn_state).user_state)) })),
             // an operator's KILL touches exactly the named user's kill channel, nothing else
             kill_frame(*old(state), *final(state), sk(nickname)), // @prop C11
-            sym(*final(state)), // @prop C04
+            sym(*final(state)), // @prop C04,C05
             chans_wf(*final(state)), // @prop C04,C08
             no_empty_chan(*final(state)), // @prop C16
-            wallops_wf(*final(state)), // @prop C11,C06
+            wallops_wf(*final(state)), // @prop C11,C06,C05
             counters_wf(*final(state)), // @prop C19
             senders_distinct(*final(state)), // @prop C02,C01
 //@open
@@ -300,10 +300,10 @@ impl MainState {
             ({ let k = my_nick(*old(conn_state)); // @prop C10
                &&& final(state).users@ == old(state).users@.insert(k, User { away: (if text is Some { Some(sk(text->0)) } else { None }), ..old(state).users@[k] })
                &&& final(state).channels == old(state).channels && state_rest_same(*old(state), *final(state)) }),
-            sym(*final(state)), // @prop C04
+            sym(*final(state)), // @prop C04,C05
             chans_wf(*final(state)), // @prop C04,C08
             no_empty_chan(*final(state)), // @prop C16
-            wallops_wf(*final(state)), // @prop C11,C06
+            wallops_wf(*final(state)), // @prop C11,C06,C05
             counters_wf(*final(state)), // @prop C19
             senders_distinct(*final(state)), // @prop C02,C01
 //@open
